@@ -30,7 +30,7 @@ func init() {
 			sk("cap2", cap2, "2x2", 60), icb("cap2", cap2, "2x2", 1, "3", 60), sk("cap2", cap2, "2x3", 60), sk("cap2", cap2, "3-311", 60), sk("cap2", cap2, "3-221", 60),
 			sk("cap4", cap4, "2x3", 60), sk("cap4", cap4, "2x4", 60), sk("cap4", cap4, "3-221", 60),
 			icb("cap16", sched, "late-free", 4, "3", 60),
-			store("S1-2x2-holder", 1, "2", 60), store("S3-2x2-writer", 2, "2", 60), store("S5-loading-2x2-holder", 1, "2", 60), store("S4-3x2-holder", 4, "2", 60), store("S7-2x2-loadcache", 4, "2", 60),
+			store("S1-2x2-holder", 1, "2", 60), store("S3-2x2-writer", 2, "2", 60), store("S5-loading-2x2-holder", 1, "2", 60), store("S4-3x2-holder", 4, "2", 60), store("S7-2x2-loadcache", 4, "2", 60), store("S8-hybrid-2x2-holder", 2, "2", 60), store("S8L-hybrid-loading-2x2-holder", 2, "2", 60),
 		},
 		Thorough: []Scenario{
 			{Name: "C08/delivered-batch", Build: plain, Pkg: "internal", Test: "TestVerif_C08Batch", Params: "len=8", Shards: 8, BudgetS: 600},
@@ -39,7 +39,7 @@ func init() {
 			sk("cap4", cap4, "2x4", 600), sk("cap4", cap4, "2x5", 840), sk("cap4", cap4, "3-221", 600), sk("cap4", cap4, "3x2", 840),
 			icb("cap16", sched, "late-free", 16, "4", 840),
 			store("S1-2x2-holder", 2, "3", 600), store("S2-2x3-holder", 8, "3", 600), store("S3-2x2-writer", 4, "3", 600), store("S4-3x2-holder", 16, "3", 840),
-			store("S5-loading-2x2-holder", 2, "3", 600), store("S6-2x3-writer", 16, "3", 840), store("S7-2x2-loadcache", 8, "3", 600),
+			store("S5-loading-2x2-holder", 2, "3", 600), store("S6-2x3-writer", 16, "3", 840), store("S7-2x2-loadcache", 8, "3", 600), store("S8-hybrid-2x2-holder", 4, "3", 600), store("S8L-hybrid-loading-2x2-holder", 4, "3", 600),
 		},
 	})
 }
